@@ -31,6 +31,7 @@ UNIT_PROPS = {
     "cob_thread": ["C07"],
     "fetch_stage": ["C01"],
     "wire_streams": ["C13"],
+    "dag_remove": ["C06"],
     "fetch_validate": ["C01"],
     "service_inventory": ["C11"],
 }
@@ -183,11 +184,11 @@ PROPS = {
         "not_decided": "The vote COUNT inside Identity::adopt (heads.values().filter(..).count() vs is_majority) and the voiding of other active revisions are iterator/closure code: adopt is a sink with an assumed frame (current stays or becomes id; verdicts/heads untouched). Representation invariant wf() of Identity is assumed, its preservation is not verified (votes_backed is verified to be preserved by action, relative to adopt's assumed frame). Causal-order evaluation (change graph) is out of reach.",
     },
     "C06": {
-        "vx": ["cob_op", "cob_evaluate"],
+        "vx": ["cob_op", "cob_evaluate", "dag_remove"],
         "kx": [],
         "technique": "Verus failure-frame postcondition on the extracted <Issue|Patch|Identity as store::Cob>::op with op_action/action as arbitrary-effect stand-ins; contract on ChangeGraph::evaluate and on its prune_by filter closure (lifted verbatim to a named fn)",
         "explanation": "For Issue, Patch and Identity: if `op` returns Err the object is exactly the value it had before the call, whatever the individual actions did before the failing one (actions are arbitrary-effect stand-ins, so the proof does not depend on which action fails or why). In ChangeGraph::evaluate (unit cob_evaluate) the filter handed to Dag::prune_by answers Break -- prune -- for every entry whose signature does not verify or which Evaluate::apply refuses, in both cases with the object exactly as it was before the call; on Continue the object is the result of applying that entry once; and no object is produced unless the root entry exists and its signature verifies.",
-        "not_decided": "That Dag::prune_by (radicle-dag) calls the filter once per reachable node in dependency order and removes the node with its dependents on Break is ASSUMED (stand-in without body), so the whole-history equation 'state == evaluation of the pruned history' follows only relative to that; Evaluate::apply's failure frame is a trait contract taken from the statement, proved for Issue/Patch/Identity::op only (Thread and External by inspection); what a valid signature is (ExtendedSignature::verify) is a ghost fact.",
+        "not_decided": "Dag::remove -- what prune_by applies to a node on Break -- is verified in unit dag_remove (recursion with a termination measure: the node is removed, the graph only shrinks, every direct dependent is gone, and by the same contract theirs); that Dag::prune_by calls the filter once per reachable node in dependency order and calls remove on Break is ASSUMED (stand-in without body), so the whole-history equation 'state == evaluation of the pruned history' follows only relative to that; Evaluate::apply's failure frame is a trait contract taken from the statement, proved for Issue/Patch/Identity::op only (Thread and External by inspection); what a valid signature is (ExtendedSignature::verify) is a ghost fact.",
     },
     "C07": {
         "vx": ["cob_auth", "cob_auth_patch", "cob_thread"],
